@@ -224,9 +224,21 @@ func TestVfC14Stale(t *testing.T) {
 			mode = "stale-stream-reset"
 		}
 		var killAll atomic.Bool
+		// the pool may hold more than one idle connection: "pool.c14" queries are held until poolSize of them have arrived,
+		// so that as many connections are open at once (on the kinds that use a connection per exchange)
+		poolSize := rapid.SampledFrom([]int{1, 1, 1, 2, 4, 8, 12}).Draw(t, "idleConnections")
+		var poolArrived atomic.Int32
+		poolGate := make(chan struct{})
+		var poolOnce sync.Once
 		srv, err := vfkit.StartUpstream(kind, "s", "127.0.0.1", 0, vfkit.ServerTLS(leaf), func(q *vfkit.UpQuery) vfkit.UpAction {
 			if killAll.Load() {
 				return vfkit.UpAction{CloseBefore: true}
+			}
+			if q.Msg.Err == nil && len(q.Msg.Q) == 1 && string(q.Msg.Q[0].Name[0]) == "pool" {
+				if int(poolArrived.Add(1)) >= poolSize {
+					poolOnce.Do(func() { close(poolGate) })
+				}
+				return vfkit.UpAction{Reply: vfOKReply(q), Gate: poolGate}
 			}
 			return vfkit.UpAction{Reply: vfOKReply(q)}
 		})
@@ -244,6 +256,20 @@ func TestVfC14Stale(t *testing.T) {
 			if !ok {
 				t.Fatalf("%s: warm-up exchange failed: %v", kind, err)
 			}
+		}
+		if poolSize > 1 {
+			var pw sync.WaitGroup
+			for i := 0; i < poolSize; i++ {
+				pw.Add(1)
+				go func(i int) {
+					defer pw.Done()
+					ctx, cancel := context.WithTimeout(context.Background(), 3*time.Second)
+					vfExchange(u, ctx, uint16(40+i), "pool.c14")
+					cancel()
+				}(i)
+			}
+			go func() { time.Sleep(time.Second); poolOnce.Do(func() { close(poolGate) }) }()
+			pw.Wait()
 		}
 		before := srv.Conns()
 		switch mode {
